@@ -11,7 +11,9 @@ What a Lean model can carry and what it cannot (DESIGN §9 C03):
   no range operation, clone, drop or detach on one handle changes the bits any other handle
   denotes; every in-place write (`append`, `insert`, `invert`) happens after `detach`, and
   `shared_buffer_writes_isolated`: whatever other handle exists while one of these three consumes its
-  receiver — in particular the same value held by a cloned interpreter — denotes the same bits afterwards.
+  receiver — in particular the same value held by a cloned interpreter — denotes the same bits afterwards;
+  `snapshot_values_survive_any_history`: the same over ANY sequence of operations one copy performs on its own values
+  (the pool machine of Model/BitstrPool.lean, whose invariant counts the live handles of every buffer).
 * Determinism of re-running a snapshot: `rerun_deterministic` — two machines that agree on
   everything a program can observe (they may differ in the reverse log, the instruction meter,
   captured stdout) execute the same steps and agree after every one (from C02's `replay`).
@@ -60,6 +62,36 @@ theorem shared_buffer_detach_isolated (h : Bitstr.Heap) (s : Bitstr.Handle) (wf 
     (t : Bitstr.Handle) (ht : t.buf < h.next) :
     ∃ h' s', Bitstr.detach h s = .ok (h', s') ∧ Bitstr.bits h' t = Bitstr.bits h t :=
   C04.detach_isolation h s wf t ht
+
+/-- **Over any history.** Two copies of an interpreter hold handles into the same buffers (a clone copies handles, not
+    bytes). Let one of them do whatever it likes with ITS values — any sequence of the pool operations of
+    Model/BitstrPool.lean whose consumed receivers are its own (`C04.writes op ≠ some j`) — creating, cloning, slicing,
+    detaching, inverting, appending to, inserting into and dropping them, also values that share a buffer with the
+    other copy's: a value `j` of the other copy denotes at the end exactly what it denoted at the start (the same start,
+    the same bits), and is still well formed. From every state a history reaches (`PoolInv`). -/
+theorem snapshot_values_survive_any_history (ops : List Bitstr.PoolOp) :
+    ∀ (p : Bitstr.Pool) (a : List (Option Bitstr.AVal)), Bitstr.PoolInv p a →
+    ∀ (p' : Bitstr.Pool), p.run ops = some p' →
+    ∀ (j : Nat) (s : Bitstr.Handle), p.slots[j]? = some (some s) → (∀ op ∈ ops, C04.writes op ≠ some j) →
+      ∃ s', p'.slots[j]? = some (some s') ∧ s'.start = s.start ∧ Bitstr.bits p'.heap s' = Bitstr.bits p.heap s ∧
+        Bitstr.WF p'.heap s' := by
+  induction ops with
+  | nil =>
+    intro p a inv p' h j s hj _
+    simp only [Bitstr.Pool.run, Option.some.injEq] at h
+    subst h
+    exact ⟨s, hj, rfl, rfl, (inv.live j s hj).1⟩
+  | cons op ops ih =>
+    intro p a inv p' h j s hj hw
+    simp only [Bitstr.Pool.run] at h
+    cases hs : p.step op with
+    | none => simp [hs] at h
+    | some p1 =>
+      simp only [hs, Option.bind_some] at h
+      obtain ⟨s1, h1, e1, b1⟩ := C04.other_values_are_untouched p a inv op p1 hs j s hj (hw op (by simp))
+      obtain ⟨s', h2, e2, b2, w2⟩ := ih p1 _ (Bitstr.step_refines p a inv op p1 hs) p' h j s1 h1
+        (fun o ho => hw o (by simp [ho]))
+      exact ⟨s', h2, e2.trans e1, b2.trans b1, w2⟩
 
 /-- a snapshot and its origin, started on the same program, go through the same steps and agree
     after each (they may differ in log, meter and captured stdout when the runs start) -/
